@@ -14,7 +14,7 @@ import ast
 
 from .. import paths, storewalk, tables
 from ..model import AnalysisError, Project, self_attr
-from ..report import Result
+from ..report import Result, ctx_of
 from ..tables import RP, RG, QP, QG, TRIGGERS, LEVEL_UPDATER
 from .common import site, src, status_str
 
@@ -113,6 +113,7 @@ def run(p: Project, tier: str) -> Result:
     r.assumptions = ['tokens are compared by identity/equality of simpy.Event objects', 'env.active_process identifies the caller']
     ws = storewalk.walks(p, assume_inv=('I1',))
     for w in ws:
+        r.ctx = ctx_of(w)
         s = w.store
         for entry, (granted, queue) in ENTRY.items():
             fi = w.root_funcs[entry]
